@@ -89,7 +89,11 @@ NumArgs == {NumA("0"), NumA("1"), NumA("2"), Un("-", NumA("1")), NumA("1.5"), Ow
 Sets == {SetOf(<<NumA("1")>>), SetOf(<<NumA("1"), NumA("2")>>), SetOf(<<NumA("2"), NumA("2")>>),
          SetOf(<<Own("x")>>), SetOf(<<Own("x"), Own("y")>>), SetOf(<<Own("x"), NumA("1")>>),
          SetOf(<<NumA("1"), Own("x"), NumA("3")>>), SetOf(<<Own("x"), Own("x")>>),
-         SetOf(<<Bn("+", NumA("1"), NumA("1")), NumA("2")>>), SetOf(<<NumA("0"), Own("x")>>)}
+         SetOf(<<Bn("+", NumA("1"), NumA("1")), NumA("2")>>), SetOf(<<NumA("0"), Own("x")>>),
+         \* wide literals: several references and several literals (aggregates over them fold to variadic calls)
+         SetOf(<<Own("x"), Own("y"), Own("z"), NumA("1"), NumA("2")>>),
+         SetOf(<<NumA("3"), Own("x"), NumA("1"), Own("y"), Fld(VarR("@A"), "n"), Idx(Own("xs"), NumA("0"))>>),
+         SetOf(<<Own("x"), Own("y"), Own("z"), Own("w")>>)}
 Ranges == {Rng(lb, lo, hi, rb) : lb \in {"[", "!["}, rb \in {"]", "]!"},
                                  lo \in {NumA("1"), NumA("0")}, hi \in {NumA("3"), NumA("1")}}
           \cup {Rng("[", NumA("3"), NumA("1"), "]"), Rng("[", Own("x"), NumA("3"), "]"),
